@@ -362,6 +362,11 @@ def meas_cases(tier, seed):
                 for pk in (["uniform", "ramp", "g0"] if k > 1 else ["uniform"]):
                     for form in ("vec", "dm"):
                         yield {"kind": "pgm", "d": d, "kets": list(sub), "prior": pk, "form": form}
+                    if pk == "ramp":
+                        # ensembles that mix the two documented forms (added after seeded change C19-7, which chose the
+                        # conversion from the first element only) and 1-D vectors
+                        for form in ("dm_first", "vec_first", "vec1d", "alternate1d"):
+                            yield {"kind": "pgm", "d": d, "kets": list(sub), "prior": pk, "form": form}
     # mixed ensembles
     for d in (2, 3):
         dn = [k for k in catalog.densities(d) if not k.startswith("ket:")]
@@ -435,7 +440,19 @@ def meas_check(case):
         if "kets" in case:
             vecs = [catalog.ket(d, k) for k in case["kets"]]
             dms = [catalog.proj(v) for v in vecs]
-            states = [v.reshape(-1, 1) for v in vecs] if case["form"] == "vec" else [m.copy() for m in dms]
+            form = case["form"]
+            if form == "vec":
+                states = [v.reshape(-1, 1) for v in vecs]
+            elif form == "dm":
+                states = [m.copy() for m in dms]
+            elif form == "vec1d":
+                states = [np.array(v).ravel() for v in vecs]
+            elif form == "dm_first":
+                states = [dms[0].copy()] + [v.reshape(-1, 1) for v in vecs[1:]]
+            elif form == "vec_first":
+                states = [vecs[0].reshape(-1, 1)] + [m.copy() for m in dms[1:]]
+            else:  # alternate1d: density matrix, 1-D vector, density matrix, ...
+                states = [dms[i].copy() if i % 2 == 0 else np.array(vecs[i]).ravel() for i in range(len(vecs))]
         else:
             dms = [catalog.density(d, k) for k in case["dms"]]
             states = [m.copy() for m in dms]
